@@ -45,6 +45,9 @@ type seriesT struct {
 	UID    string
 	Tags   map[string]string // all tags, including uid
 	Writes int               // number of points written (each has value 1 at baseTS)
+	// Jump > 0: series id plan (idplan_test.go): when this series is created, the series sequence of its
+	// (metric, shard) continues at this id
+	Jump uint32
 }
 
 // world = one engine + cluster + the model of what was written.
@@ -72,6 +75,12 @@ type world struct {
 	logMu                                      sync.Mutex // operations nested inside a flush log from their own goroutine
 	lastQueryNote                              atomic.Value
 	bodyNotJudged                              bool // withSeams: the lookup overlapped the step nested inside it (bounded wait expired)
+
+	// series id plans (idplan_test.go), evidence book-keeping only
+	planned                    map[string]bool // (shard, metric) pairs whose sequence was moved
+	idJumpsDropped             int
+	lastCompacted              []string // "<store>/<family>" of the families the last compaction step merged
+	fwdCompactedOverContainers bool
 }
 
 func newWorld(t failer, shards []models.ShardID, leaves int) *world {
@@ -199,17 +208,41 @@ func (w *world) write(batch []*seriesT) {
 			w.warm(s.Metric, s.Shard)
 		}
 	}
-	perShard := map[models.ShardID][]*protoMetricsV1.Metric{}
+	perShard := map[models.ShardID][]*seriesT{}
 	var order []models.ShardID
 	for _, s := range batch {
 		if _, ok := perShard[s.Shard]; !ok {
 			order = append(order, s.Shard)
 		}
-		perShard[s.Shard] = append(perShard[s.Shard], protoOf(s))
+		perShard[s.Shard] = append(perShard[s.Shard], s)
 	}
 	for _, sh := range order {
-		if err := w.n.Write(w.db, sh, perShard[sh]); err != nil {
-			w.t.Fatalf("harness: write rejected: %v (history: %s)", err, w.history())
+		// one production write call per shard; a series that starts a new run of its id plan starts a new call
+		// (WriteRows handles the rows one after the other and waits for the index of each: same work, more calls)
+		rows := perShard[sh]
+		for len(rows) > 0 {
+			var jumped *seriesT
+			if _, known := w.byUID[rows[0].UID]; !known && rows[0].Jump > 0 && w.applyJump(rows[0]) {
+				jumped = rows[0]
+			}
+			n := 1
+			for n < len(rows) {
+				if _, known := w.byUID[rows[n].UID]; !known && rows[n].Jump > 0 {
+					break
+				}
+				n++
+			}
+			ms := make([]*protoMetricsV1.Metric, 0, n)
+			for _, s := range rows[:n] {
+				ms = append(ms, protoOf(s))
+			}
+			if err := w.n.Write(w.db, sh, ms); err != nil {
+				w.t.Fatalf("harness: write rejected: %v (history: %s)", err, w.history())
+			}
+			if jumped != nil {
+				w.verifyJump(jumped)
+			}
+			rows = rows[n:]
 		}
 	}
 	for _, s := range batch {
@@ -350,6 +383,7 @@ func filesOf(f kv.Family) int {
 // pick(i) says whether the i-th family takes part.
 func (w *world) compact(pick func(i int) bool, deleteObsolete bool) {
 	ran := 0
+	w.lastCompacted = nil
 	for i, f := range w.indexFamilies() {
 		if !pick(i) {
 			continue
@@ -360,6 +394,7 @@ func (w *world) compact(pick func(i int) bool, deleteObsolete bool) {
 		}
 		if ok {
 			ran++
+			w.lastCompacted = append(w.lastCompacted, filepath.ToSlash(f.store)+"/"+f.name)
 			if strings.HasPrefix(f.store, "meta") && f.name == "tv" {
 				// the dictionary store keeps reading its old snapshot until its next flush or a restart
 				w.dictCompactedPending = true
